@@ -159,31 +159,19 @@ func c08(args []string) error {
 			}
 		}
 		seen := map[[2]int]hotstuff.TimeoutMsg{} // diagnosis (HSVERIF_LOG): the accepted timeout messages by (sender, view)
-		postMortem := func(view int, pre, post [][2]int) {
-			if os.Getenv("HSVERIF_LOG") == "" {
-				return
-			}
-			cnt := func(b [][2]int) int {
-				k := 0
-				for _, e := range b {
-					if e[1] == view {
-						k++
-					}
-				}
-				return k
-			}
+		// diagnosis: when R rejects sync info it assembled itself (the certificate it just built does not verify), the line carries the
+		// material: public keys, the signatures that went in, how each verifies alone and combined
+		postMortem := func(view int) []string {
 			if !syncInfoRejected {
-				return
+				return nil
 			}
 			syncInfoRejected = false
-			_ = cnt
-			fmt.Fprintf(os.Stderr, "[postmortem] quorum for view %d consumed without leaving the view (scheme %s, n=%d, R=%d)\n", view, scheme, n, R)
+			out := []string{fmt.Sprintf("sync info rejected by R while handling view %d (scheme %s, n=%d, R=%d, R now in view %d, collector %v)", view, scheme, n, R, r.VS.View(), bagOf(r))}
 			for _, x := range nodes {
 				if pk, ok := x.Key.Public().(interface{ ToBytes() []byte }); ok {
-					fmt.Fprintf(os.Stderr, "[postmortem]   pubkey %d = %x\n", x.ID, pk.ToBytes())
+					out = append(out, fmt.Sprintf("pubkey %d = %x", x.ID, pk.ToBytes()))
 				}
 			}
-			fmt.Fprintf(os.Stderr, "[postmortem]   R's collector now: %v; R view %d\n", bagOf(r), r.VS.View())
 			var sigs []hotstuff.QuorumSignature
 			for k, tm := range seen {
 				if k[1] != view {
@@ -191,19 +179,24 @@ func c08(args []string) error {
 				}
 				e1 := nodes[0].Auth.Verify(tm.ViewSignature, hotstuff.View(view).ToBytes())
 				e2 := r.Auth.Verify(tm.ViewSignature, hotstuff.View(view).ToBytes())
-				fmt.Fprintf(os.Stderr, "[postmortem]   from %d: participants %v sig %x verify@1=%v verify@R=%v\n", k[0], hx.IDs(tm.ViewSignature.Participants()), tm.ViewSignature.ToBytes(), e1, e2)
+				out = append(out, fmt.Sprintf("from %d: participants %v sig %x verify@1=%v verify@R=%v", k[0], hx.IDs(tm.ViewSignature.Participants()), tm.ViewSignature.ToBytes(), e1, e2))
 				sigs = append(sigs, tm.ViewSignature)
 			}
 			if len(sigs) >= 2 {
 				c, err := nodes[0].Auth.Combine(sigs...)
 				if err != nil {
-					fmt.Fprintf(os.Stderr, "[postmortem]   combine: %v\n", err)
-					return
+					return append(out, "combine: "+err.Error())
 				}
 				for _, x := range nodes {
-					fmt.Fprintf(os.Stderr, "[postmortem]   combined %v verify@%d = %v\n", hx.IDs(c.Participants()), x.ID, x.Auth.Verify(c, hotstuff.View(view).ToBytes()))
+					out = append(out, fmt.Sprintf("combined %v verify@%d = %v", hx.IDs(c.Participants()), x.ID, x.Auth.Verify(c, hotstuff.View(view).ToBytes())))
 				}
 			}
+			if os.Getenv("HSVERIF_LOG") != "" {
+				for _, l := range out {
+					fmt.Fprintln(os.Stderr, "[postmortem] "+l)
+				}
+			}
+			return out
 		}
 		for m := 0; m < *length; m++ {
 			cur := int(r.VS.View())
@@ -217,8 +210,10 @@ func c08(args []string) error {
 					}
 				}
 				line := obj{"op": "tmo", "from": R, "view": cur, "ok": true, "msgok": true, "local": true, "pre": pre}
+				if d := postMortem(cur); d != nil {
+					line["diag"] = d
+				}
 				collect(line, vc0)
-				postMortem(cur, pre["bag"].([][2]int), line["post"].(obj)["bag"].([][2]int))
 				continue
 			}
 			s := 1 + rng.Intn(n)
@@ -271,8 +266,10 @@ func c08(args []string) error {
 				}
 			}
 			line := obj{"op": "tmo", "from": s, "view": v, "ok": kind == "good", "msgok": msgok, "sig": kind, "local": false, "pre": pre, "panic": pan}
+			if d := postMortem(v); d != nil {
+				line["diag"] = d
+			}
 			collect(line, vc0)
-			postMortem(v, pre["bag"].([][2]int), line["post"].(obj)["bag"].([][2]int))
 		}
 		r.Stop()
 	}
